@@ -1,0 +1,19 @@
+//go:build verif
+
+package ast
+
+// VerifBeforeSend, when set, is called by the producer goroutine of IterVisitor.All right before it sends a node
+// into the channel. A conformance harness blocks in it to step the producer through a schedule.
+var VerifBeforeSend func(v Node)
+
+func verifBeforeSend(_ *IterVisitor, v Node) {
+	if f := VerifBeforeSend; f != nil {
+		f(v)
+	}
+}
+
+// VerifChanLen is the number of nodes sent and not yet received.
+func (s *IterVisitor) VerifChanLen() int { return len(s.nodeC) }
+
+// VerifChanCap is the capacity of the channel.
+func (s *IterVisitor) VerifChanCap() int { return cap(s.nodeC) }
